@@ -412,7 +412,7 @@ func VerifyLemma(ld *Loader, cs *Contracts, lm *Axiom) (qs []*Query, fails []str
 	for _, u := range lm.Use {
 		ex.useAxiom(u)
 	}
-	st := &State{vars: map[types.Object]Val{}, heap: map[string]string{}, ghost: map[string]string{}, extra: map[string]Val{}, compEpoch: map[string]int{}}
+	st := &State{vars: map[types.Object]Val{}, heap: map[string]string{}, ghost: map[string]string{}, extra: map[string]Val{}, compEpoch: map[string]int{}, pureInst: map[string]bool{}}
 	env := &Env{ex: ex, names: map[string]Val{}, cur: st, pkg: pkg.Types}
 	t, err := env.elabBool(lm.Expr)
 	if err != nil {
@@ -471,7 +471,7 @@ func VerifyTable(ld *Loader, cs *Contracts, tb *TableSpec) (qs []*Query, fails [
 			}
 		}
 	}()
-	st := &State{vars: map[types.Object]Val{}, heap: map[string]string{}, ghost: map[string]string{}, extra: map[string]Val{}, compEpoch: map[string]int{}}
+	st := &State{vars: map[types.Object]Val{}, heap: map[string]string{}, ghost: map[string]string{}, extra: map[string]Val{}, compEpoch: map[string]int{}, pureInst: map[string]bool{}}
 	var tv Val
 	got := false
 	ex.eval(st, init, func(st2 *State, v Val) {
